@@ -10,7 +10,7 @@ from .. import core, fm, km, mc, ref
 from ..core import Failure
 from .. import graphs
 
-NAMINGS = ['str', 'revint', 'tuple', 'mixed', 'strcollide', 'strlen']
+NAMINGS = ['str', 'revint', 'tuple', 'mixed', 'strcollide', 'strlen', 'opaque']
 CONTAINERS = ['list', 'set', 'tuple']
 ATOM_MAPS = [{'p': 'alpha_long_name', 'q': 'Zq'}, {'p': 'q', 'q': 'p'}, {'p': 'a b', 'q': 'x-1'},
              {'p': 'pp', 'q': 'p_'}, {'p': 'fairness', 'q': 'E'}, {'p': 'q', 'q': 'qq'},
@@ -91,6 +91,19 @@ def check_invariance(inp):
     r = expect('atoms renamed %s' % (m,), out, base[1])
     if r:
         return r
+    # 2b. an atom that does not occur in the formula, under a harmless and under adversarial names
+    #     (the names the checkers generate themselves: '[<quantified subformula>]', 'fair', ...):
+    #     renaming an unused atom is a consistent renaming and cannot change the answer
+    if inp.get('extra'):
+        where = [i % n for i in inp['extra']['states']]
+        names = ['r_unused'] + adversarial_names(f)
+        name = names[inp['extra']['name'] % len(names)]
+        for nm_ in ('r_unused', name):
+            Ke = dict(K, labels=[list(l) + ([nm_] if i in where else []) for i, l in enumerate(K['labels'])])
+            out = mc.call(checker, Ke, f, 'int', inp['how'], 'list')
+            r = expect('extra atom %r (not in the formula) labelling states %s' % (nm_, sorted(set(where))), out, base[1])
+            if r:
+                return r
     # 3. states that are not reachable from the queried ones
     if inp.get('ext'):
         Kx = extend(K, inp['ext'])
@@ -102,6 +115,22 @@ def check_invariance(inp):
                            'answer restricted to the old states after adding %d states not reachable from them'
                            % inp['ext']['m'])
     return None
+
+
+def adversarial_names(f):
+    """Atom names that look like the ones the checkers generate for the query f."""
+    out = ['fair', 'fair0', 'fair1', '[true]', 'true', 'A', '[p]']
+    L = fm.lang('CTLS')
+    for sub in fm.subformulas(f):
+        if sub[0] in fm.QUANT:
+            try:
+                printed = str(fm.to_lib(sub, L))
+            except Exception:
+                continue
+            out += ['[%s]' % printed, '[[%s](0)]' % printed, '[%s(0)]' % printed]
+            # also the body with inner quantifiers already replaced, as the checker sees it
+            out.append('[%s]' % printed.replace(' ', ''))
+    return out
 
 
 def check_hashseed(inp):
@@ -204,7 +233,9 @@ def random_shard(st, shard, nshards, payload):
                    'labels': draw(hs.lists(hs.sampled_from([[], ['p'], ['q'], ['p', 'q']]), min_size=1, max_size=2))}
         return {'K': K, 'f': f, 'checker': checker, 'perm': list(draw(hs.permutations(list(range(n))))),
                 'naming': draw(hs.sampled_from(NAMINGS)), 'how': draw(hs.integers(0, 5)),
-                'containers': draw(hs.sampled_from(CONTAINERS)), 'atoms': draw(hs.integers(0, 9)), 'ext': ext}
+                'containers': draw(hs.sampled_from(CONTAINERS)), 'atoms': draw(hs.integers(0, 9)), 'ext': ext,
+                'extra': {'states': draw(hs.lists(hs.integers(0, 6), min_size=1, max_size=3)),
+                          'name': draw(hs.integers(0, 40))} if draw(hs.booleans()) else None}
 
     def body(inp):
         f = check_invariance(inp)
@@ -231,7 +262,8 @@ def run(ctx):
                 '(strings, reversed ints, tuples, mixed types, states whose printed forms collide), '
                 'one of six S/R/L collection orders, list/set/tuple containers; a consistent atom '
                 'renaming (incl. swapping p and q, names with spaces, reserved-looking names) given '
-                'as object or text; a disjoint extension by 1-2 states with edges among themselves '
+                'as object or text; an extra atom that does not occur in the formula, named harmlessly and named like '
+                'the atoms the checkers generate ([E(X(p))], fair, ...), on random states; a disjoint extension by 1-2 states with edges among themselves '
                 'and into K (never reachable from K).  Oracle: answer = image of the base answer '
                 '(restricted to the old states for extensions).  (B) hash seeds: a deterministic '
                 'corpus (string / mixed states, multi-character atoms, all three checkers) is '
